@@ -206,6 +206,54 @@ class Fn(_Extract):
         return src.extract_fn(self.name, self.impl)
 
 
+class Block(_Extract):
+    """A verbatim statement range of a function body, [start_anchor .. end_anchor] inclusive, wrapped
+    into a synthetic function `header { <block> tail }` whose parameters are the block's free
+    variables.  A block contract {P} block {Q}: the enclosing function is NOT verified, so the
+    block is proved for every entry state satisfying the stated precondition.  Both anchors must
+    occur exactly once in the function body (else LostAnchor -> exit 2)."""
+
+    def __init__(self, file, name, start, end, header, tail='', impl=None, exclusive=False, **kw):
+        super().__init__(file, **kw)
+        self.exclusive = exclusive   # the anchors delimit the block but are not part of it
+        self.name = name
+        self.impl = impl
+        self.start_anchor = start
+        self.end_anchor = end
+        self.header = header
+        self.tail = tail
+
+    def locate(self, src):
+        from rsx import Item
+        fn = src.extract_fn(self.name, self.impl)
+        body = src.text[fn.sig_open:fn.end]
+        if body.count(self.start_anchor) != 1:
+            raise LostAnchor('%s: block start `%s` occurs %d times' % (fn.name, self.start_anchor, body.count(self.start_anchor)))
+        a = fn.sig_open + body.index(self.start_anchor)
+        rest = src.text[a:fn.end]
+        if rest.count(self.end_anchor) < 1:
+            raise LostAnchor('%s: block end `%s` not found after the block start' % (fn.name, self.end_anchor))
+        b = a + rest.index(self.end_anchor) + len(self.end_anchor)
+        if self.exclusive:
+            ls = a + len(self.start_anchor)
+            b = a + rest.index(self.end_anchor, len(self.start_anchor))
+            if b < ls:
+                raise LostAnchor('%s: block delimiters overlap' % fn.name)
+        else:
+            # start at the beginning of the line holding the start anchor
+            ls = src.text.rfind('\n', 0, a) + 1
+            if src.text[ls:a].strip():
+                ls = a
+        it = Item(src, ls, b, sig_open=None, kind='block', name=fn.name + '{' + self.start_anchor[:24].strip() + '..}')
+        return it
+
+    def render(self, root):
+        text, item = super().render(root)
+        if item is None:
+            return text, item
+        return self.header.rstrip() + '\n{\n' + text + self.tail + '\n}\n', item
+
+
 class Decl(_Extract):
     def __init__(self, file, kind, name, **kw):
         super().__init__(file, **kw)
